@@ -896,8 +896,12 @@ class IndexLevelGO(IndexLevel):
         for depth, k in enumerate(key):
             edge_nodes[depth] = node
             # only set on first encounter in descent
-            if depth_not_found == -1 and not node.index.__contains__(k):
-                depth_not_found = depth
+            if depth_not_found == -1:
+                if not node.index.__contains__(k):
+                    depth_not_found = depth
+                elif node.index._loc_to_iloc(k) != node.index.__len__() - 1:
+                    # the descent continues along the last target: a label held at another position names a closed sub-tree
+                    raise RuntimeError(f'cannot append {key}: {k} at depth {depth} is not the last label of its level')
             if node.targets is not None:
                 node = node.targets[-1]
 
